@@ -44,7 +44,7 @@ Section Chain.
   Variable rk : list nat.
   Variable kinds : nat -> ekind.
   Hypothesis Hscope : chain_scope g rk = true.
-  Hypothesis Hkinds : forall i, kinds i = EESM.
+  Hypothesis Hkinds : forall i, (i < length g)%nat -> kinds i = EESM.
   Let resolved := resolved_of g kinds.
 
   Lemma scope_parts :
@@ -60,7 +60,7 @@ Section Chain.
   Lemma plain o :
     m_lazy (getm g o) = false /\ m_is_ts (getm g o) = false /\
     (forall ni, In ni (m_imports (getm g o)) -> ni_generated ni = false) /\
-    (forall ni, In ni (m_imports (getm g o)) -> exists t, import_target (getm g o) ni = Some t) /\
+    (forall ni, In ni (m_imports (getm g o)) -> exists t, import_target (getm g o) ni = Some t /\ (t < length g)%nat) /\
     (forall ni, In ni (m_imports (getm g o)) -> ni_ref ni <> m_exports_ref (getm g o)).
   Proof.
     destruct scope_parts as [_ [H _]].
@@ -71,7 +71,7 @@ Section Chain.
     - destruct (m_is_ts (getm g o)); [discriminate|reflexivity].
     - intros ni Hin. rewrite forallb_forall in H2. specialize (H2 ni Hin). destruct (ni_generated ni); [discriminate|reflexivity].
     - intros ni Hin. rewrite forallb_forall in H1. specialize (H1 ni Hin).
-      destruct (import_target (getm g o) ni) as [t|]; [eauto|discriminate].
+      destruct (import_target (getm g o) ni) as [t|]; [|discriminate]. exists t. split; [reflexivity|apply Nat.ltb_lt; exact H1].
     - intros ni Hin Heq. apply negb_true_iff in H0.
       assert (existsb (fun ni0 => Nat.eqb (ni_ref ni0) (m_exports_ref (getm g o))) (m_imports (getm g o)) = true).
       { apply existsb_exists. exists ni. split; [exact Hin|apply Nat.eqb_eq; exact Heq]. }
@@ -135,14 +135,15 @@ Section Chain.
   (* one iteration on a namespace import: import * as ns / export * as ns *)
   Lemma star_step f t ni u cyc res ev :
     import_of g t = Some ni -> ni_is_star ni = true -> import_target (getm g (fst t)) ni = Some u ->
+    (u < length g)%nat ->
     existsb (pair_eqb t) cyc = false ->
     mloop g kinds resolved true (S f) t cyc res [] ev
     = Some (mkRes MNormal (-1) None u (m_exports_ref (getm g u)) 0, ev).
   Proof.
-    intros Hi Hs Ht Hc. cbn [mloop]. rewrite Hc, Hi.
+    intros Hi Hs Ht Hu Hc. cbn [mloop]. rewrite Hc, Hi.
     unfold advance, record_of. unfold import_target in Ht.
     destruct (nth_error (m_records (getm g (fst t))) (ni_record ni)) as [r|]; [|discriminate].
-    rewrite Ht, Hs. cbn [negb andb]. rewrite Hkinds. cbn [ekind_eqb].
+    rewrite Ht, Hs. cbn [negb andb]. rewrite (Hkinds u Hu). cbn [ekind_eqb].
     cbn [fold_left].
     assert (Hn : is_import g (u, m_exports_ref (getm g u)) = false).
     { unfold is_import. destruct (import_of g (u, m_exports_ref (getm g u))) as [n2|] eqn:E; [|reflexivity].
@@ -183,6 +184,9 @@ Section Chain.
       apply existsb_exists in E as [p [Hp He]]. apply andb_true_iff in He as [He _]. apply Nat.eqb_eq in He.
       specialize (Hrs p Hp). rewrite <- He in Hrs. lia. }
     destruct (import_of_In _ _ Hi) as [Hin Href].
+    assert (Holt : (o < length g)%nat).
+    { destruct (plain (fst t)) as [_ [_ [_ [Htg0 _]]]]. destruct (Htg0 ni Hin) as [o' [Ho' Hlt]].
+      rewrite Ht in Ho'. inversion Ho'; subst. exact Hlt. }
     cbn [mloop] in Hm. rewrite Hc, Hi in Hm.
     cbn [spec_resolve] in Hsp. rewrite Hr in Hsp.
     (* advanceImportTracker *)
@@ -194,7 +198,7 @@ Section Chain.
     { destruct (named_target_kw _ _ _ Hin Hs Ht) as [H0|Hk].
       - rewrite H0. cbn. rewrite !andb_false_r. reflexivity.
       - rewrite Hk. cbn. rewrite !andb_false_r. reflexivity. }
-    rewrite Hkw in Hm. rewrite Hkinds in Hm. cbn [ekind_eqb] in Hm.
+    rewrite Hkw in Hm. rewrite (Hkinds o Holt) in Hm. cbn [ekind_eqb] in Hm.
     fold resolved in Hm. rewrite resolved_plain, lookup_map_exports in Hm.
     destruct (find_export (ni_alias ni) (m_exports (getm g o))) as [ref'|] eqn:Ef; cbn [option_map] in Hm.
     - (* the imported file exports the name *)
@@ -204,7 +208,7 @@ Section Chain.
       destruct (find_imp ref' (m_imports (getm g o))) as [ni2|] eqn:E2.
       + (* an indirect export *)
         destruct (find_imp_In _ _ _ E2) as [Hin2 Href2].
-        destruct (plain o) as [_ [_ [_ [Htg _]]]]. destruct (Htg ni2 Hin2) as [u Hu].
+        destruct (plain o) as [_ [_ [_ [Htg _]]]]. destruct (Htg ni2 Hin2) as [u [Hu Hult]].
         pose proof Hu as Hu'. unfold import_target in Hu'.
         destruct (nth_error (m_records (getm g o)) (ni_record ni2)) as [rc2|]; [|discriminate].
         rewrite Hu' in Hsp.
@@ -224,7 +228,7 @@ Section Chain.
              rewrite Hi2 in H1. inversion H1; subst. congruence.
         * (* export {n as a} from u *)
           assert (Hrank : (rank_of rk u < rank_of rk o)%nat).
-          { eapply indirect_rank; eauto. eapply exports_in_range; eauto. }
+          { eapply indirect_rank; eauto. }
           assert (Hconcl : concl (mkRes MNormal (-1) None o ref' (ni_alias ni + 1)) ev r ev' R).
           { eapply (IH (o, ref') ni2 u (cyc ++ [t])); eauto.
             - intros c Hc2. apply in_app_or in Hc2 as [Hc2|[<-|[]]].
@@ -256,7 +260,7 @@ Section Chain.
     mres_verdict r ev = resolution_verdict g R.
   Proof.
     intros Hi Hm Hsp. destruct (import_of_In _ _ Hi) as [Hin _]. cbn [fst] in Hin.
-    destruct (plain s) as [_ [_ [_ [Htg _]]]]. destruct (Htg ni Hin) as [o Ho].
+    destruct (plain s) as [_ [_ [_ [Htg _]]]]. destruct (Htg ni Hin) as [o [Ho Holt]].
     unfold spec_import in Hsp. pose proof Ho as Ho'. unfold import_target in Ho'.
     destruct (nth_error (m_records (getm g s)) (ni_record ni)) as [rc|]; [|discriminate].
     rewrite Ho' in Hsp. unfold match_import in Hm.
